@@ -32,8 +32,22 @@ RULE = ("random ExactGP models cycling through 15 kernel families x 3 means x 3 
         "lazily_evaluate_kernels x max_eager_kernel_size{0,512} x {Cholesky,CG} x fast_pred_var x detach_test_caches x "
         "skip_posterior_variances (quick: 10 random cells per model, thorough: all 64); one case = (model, batch "
         "element, cell); distinct = distinct (model description, cell); non-trivial = n>=2 and the cross-covariance "
-        "K*x is not symmetric/square (n*!=n) and noise differs from 0")
-TRUSTED = ["translator harness/translate/g7_exact_algebra.py (Python AST of DefaultPredictionStrategy / ExactGP.__call__ -> "
+        "K*x is not symmetric/square (n*!=n) and noise differs from 0.  Wave 3: + every kernel family with active_dims "
+        "(random column subsets in random order; at the leaf / on or copied by a ScaleKernel / on both operands of a sum "
+        "or product / nested / with ARD), including the kernels that evaluate to a structured LinearOperator (Linear, RFF, "
+        "GridInterpolation, Scale over them; the kernel-specific prediction strategies on lazy cells); + data batches of "
+        "10 shapes with size-1 dimensions (test batch same / none / tail / ones); per model scenarios on a FRESH build: "
+        "three predictions on one object (2nd, 3rd judged; state_dict unchanged), copy histories (deepcopy / pickle of a "
+        "model that has predicted, then the source is retrained / edited / load_state_dict'ed or the copy is edited / "
+        "retrained; BOTH judged by their own closed form), the models returned by get_fantasy_model and "
+        "get_fantasy_model∘get_fantasy_model judged by the closed form of their own data / likelihood under the cell they "
+        "were built in and under a second cell; + the call structure: all reachable flag combinations of "
+        "ExactGP.__call__ x {1-d, 2-d argument}, 13 batch-shape pairs of the train/test concatenation, 7 (n, s, t) of "
+        "the multitask reshape, the detach state of the caches on every plain cell")
+TRUSTED = ["translator harness/translate/g7_exact_call.py (Python AST of ExactGP.__call__ / DefaultPredictionStrategy -> "
+           "lean/GPVerif/Gen/ExactCall.lean: branch selection, train/test concatenation with batch broadcasting, multitask "
+           "reshape, what detach_test_caches detaches); executed by the driver and compared with the real code on every run",
+           "translator harness/translate/g7_exact_algebra.py (Python AST of DefaultPredictionStrategy / ExactGP.__call__ -> "
            "matrix-expression IR -> lean/GPVerif/Gen/ExactAlgebra.lean); its output is executed by the driver and "
            "compared with the real code on every case",
            "torch / linear_operator primitives (Cholesky, CG, Lanczos, Kronecker eigendecomposition): contracts are "
